@@ -170,14 +170,14 @@ func eqRecs(a, b []diffRec) (bool, string) {
 }
 
 type applied struct {
-	snapBefore []string
-	stateEnc   []byte // encoding of the state after the block
-	auJSON     []byte
+	snapBefore     []string
+	stateEnc       []byte // encoding of the state after the block
+	auJSON         []byte
 	sc, sf, fc, v2 []diffRec
-	block      types.Block
-	supp       consensus.V1BlockSupplement
-	kinds      []string
-	id         types.BlockID
+	block          types.Block
+	supp           consensus.V1BlockSupplement
+	kinds          []string
+	id             types.BlockID
 }
 
 func run(b *harness.B) {
@@ -197,6 +197,9 @@ func run(b *harness.B) {
 			pendingSnap = snapshot(c.S)
 		}
 		c.OnStoreApplied = func(ev chaingen.ApplyEvent) {
+			if len(ev.Kinds) >= 3 {
+				b.Sample(chaingen.DescribeBlock(ev.Prev, ev.Block, ev.Kinds))
+			}
 			a := &applied{snapBefore: pendingSnap, stateEnc: enc(ev.Next), block: ev.Block, supp: ev.Supp, kinds: ev.Kinds, id: ev.Next.Index.ID}
 			a.auJSON, _ = json.Marshal(ev.AU)
 			a.sc, a.sf, a.fc, a.v2 = records(ev.AU)
